@@ -16,6 +16,7 @@ import (
 	"reflect"
 	"strings"
 
+	p "github.com/Oudwins/zog/internals"
 	"github.com/Oudwins/zog/zhttp"
 	"zogverif/mc"
 	"zogverif/zh"
@@ -39,6 +40,10 @@ var c15CTs = []c15CT{
 	{"application/json;charset=utf-8", true, true, "application/json"},
 	{"application/x-www-form-urlencoded", true, true, "application/x-www-form-urlencoded"},
 	{"application/x-www-form-urlencoded; charset=UTF-8", true, true, "application/x-www-form-urlencoded"},
+	// parameters are ignored whatever they say: the body is read as it is
+	{"application/json; charset=iso-8859-1", true, true, "application/json"},
+	{"application/json; charset=latin1; profile=\"x\"", true, true, "application/json"},
+	{"application/x-www-form-urlencoded; charset=iso-8859-1", true, true, "application/x-www-form-urlencoded"},
 	{"multipart/form-data; boundary=xyz", true, true, "multipart/form-data"},
 	{"text/plain", true, true, "text/plain"},
 	{"application/unknown+json", true, true, "application/unknown+json"},
@@ -54,6 +59,8 @@ var c15CTs = []c15CT{
 var c15Bodies = []struct{ name, text string }{
 	{"json object", `{"j":"json-j","x":"json-x","l":["jl1","jl2"],"m":["jm1"]}`},
 	{"json {}", `{}`},
+	{"json object with non-ASCII values", `{"j":"jé","x":"東京"}`},
+	{"form with non-ASCII values", "f=%C3%A9&x=é"},
 	{"json object followed by a newline", "{\"j\":\"json-j\",\"x\":\"json-x\"}\n"},
 	{"json object between blanks and CRLF", " \r\n\t{\"j\":\"json-j\",\"x\":\"json-x\"} \r\n"},
 	{"json {} followed by a newline", "{}\n"},
@@ -108,6 +115,17 @@ func c15Scenario(x *mc.X) *mc.Outcome {
 	// what happened to the request before zog saw it: nothing, or a middleware that looked at the form
 	// (net/http then caches the parsed values on the request: r.Form, r.PostForm, r.MultipartForm)
 	middleware := x.Choose(3, "middleware")
+	// zhttp.Config.Parsers is the documented place to replace a parser: with pass-through wrappers installed, the
+	// wrapper of the documented source — and only that one — is what Request must go through
+	wrapped := middleware == 0 && !stream && x.Bool("Config.Parsers wrapped")
+	var called []string
+	if wrapped {
+		saved := zhttp.Config.Parsers
+		zhttp.Config.Parsers.JSON = func(r *http.Request) p.DpFactory { called = append(called, "json"); return saved.JSON(r) }
+		zhttp.Config.Parsers.Form = func(r *http.Request) p.DpFactory { called = append(called, "form"); return saved.Form(r) }
+		zhttp.Config.Parsers.Query = func(r *http.Request) p.DpFactory { called = append(called, "query"); return saved.Query(r) }
+		defer func() { zhttp.Config.Parsers = saved }()
+	}
 	if _, ok := c15Skels[reqX]; !ok {
 		c15Skels[reqX] = c15Skel(reqX)
 	}
@@ -157,7 +175,7 @@ func c15Scenario(x *mc.X) *mc.Outcome {
 	installOrderRecorder(x, zh.OrderRev, &orders)
 	real := RunParse(schema, zhttp.Request(mkSeen()), dest)
 	zh.Reset()
-	desc := fmt.Sprintf("%s Content-Type=%q body[%s]=%q query[%s]=%q x.required=%v schema-is-pointer=%v unknown-length=%v middleware(0 none,1 ParseForm,2 FormValue)=%d", method, ct.value, body.name, clip(body.text), query.name, query.raw, reqX, ptrRoot, stream, middleware)
+	desc := fmt.Sprintf("%s Content-Type=%q body[%s]=%q query[%s]=%q x.required=%v schema-is-pointer=%v unknown-length=%v middleware(0 none,1 ParseForm,2 FormValue)=%d config-parsers-wrapped=%v", method, ct.value, body.name, clip(body.text), query.name, query.raw, reqX, ptrRoot, stream, middleware, wrapped)
 	out := &mc.Outcome{Traces: 1, Nontrivial: true}
 	out.Sample = map[string]any{"request": desc, "issues": real.IssueStrings(), "dest": canonNoTypes(dest.Elem())}
 	fail := func(key, what, exp, got string) *mc.Outcome {
@@ -182,6 +200,9 @@ func c15Scenario(x *mc.X) *mc.Outcome {
 		case "application/x-www-form-urlencoded":
 			source = "form"
 		}
+	}
+	if wrapped && (len(called) != 1 || called[0] != source) {
+		return fail("C15:config-parsers:"+source, "with pass-through parsers installed in zhttp.Config.Parsers, Request did not go through the parser of the documented source exactly once", "["+source+"]", fmt.Sprint(called))
 	}
 	var src any
 	decodeIssue := ""
